@@ -258,6 +258,8 @@ def units(tier, seed):
         for form in ('row op= row[::-1]', 'window op= overlapping window', 'column op= other column', 'reshaped op= its transpose'):
             add('alias/views of one parent/%s/%s' % (form, opn), 'h_alias_views', opn=opn, form=form, D=3, P=2)
     add('alias/pow,dot,outer', 'h_pow_alias', D=D, P=P)
+    for sh in (1, 2, -1, -3):
+        out.append(Unit('C14/alias/x.shift(%d, out=x)/D4,P2' % sh, 'symx.props.c17', 'h_shift', {'D': 4, 'P': 2, 's': sh}, dict(opts)))
     add('floordiv zero leading coefficients/D3,P1', 'h_floordiv', D=3, P=1)
     add('floordiv zero leading coefficient in one direction only/D3,P2', 'h_floordiv', D=3, P=2)
     for pn in ['x*x', 'x/(1+x*x)', 'exp', 'buffer', 'buffer-overwrite', 'tan(x)*x', 'dot(mat,mat)', 'inv', 'sum', 'x[1:]*x[:-1]']:
